@@ -5,7 +5,7 @@ from .defs import variant, enum, field, rs_str
 from .core import uncp, cp
 
 IDENTS13 = ["Red", "HTTPServer", "Ab12Cd", "V2", "Xml2Json", "A", "Ab", "DarkBlue", "X1", "IOError", "MyVariant", "TLS13", "Item9",
-            "Option2", "SHOUT", "snake_id", "Foo_Bar", "Utf8Str", "B2B", "Ipv4Addr", "Sha256Sum", "Z", "AB", "ABc", "Hello2You", "U8"]
+            "Option2", "Utf8To16", "X1Y2", "A1B2C3", "Sha2With512", "SHOUT", "snake_id", "Foo_Bar", "Utf8Str", "B2B", "Ipv4Addr", "Sha256Sum", "Z", "AB", "ABc", "Hello2You", "U8"]
 TRY_TYPES = ["u8", "i32", "bool", "String", "opt", "char", "i64", "u16"]
 
 
@@ -34,6 +34,19 @@ def isas_def(rng, did):
         vs.append(variant(ident, kind, fs, dis=rng.random() < 0.12))
     E = enum(did, vs, generics=generics)
     return SC.ensure_generic_use(rng, E)
+
+
+def isas_special(did, k):
+    """hand-picked shapes: one enabled variant among disabled ones; several digit groups; acronyms"""
+    shapes = [
+        [variant("Data", "tuple", [field("u8")]), variant("Reserved", dis=True)],
+        [variant("Reserved", dis=True), variant("Only"), variant("Gone", "tuple", [field("i32")], dis=True)],
+        [variant("Utf8To16"), variant("Sha2With512", "tuple", [field("i32"), field("String")]), variant("Ipv4In6", "tuple", [field("u8")]), variant("Latin1")],
+        [variant("A1B2C3", "tuple", [field("u8"), field("u8"), field("u8")]), variant("X1Y2", "named", [field("u8", "x")])],
+        [variant("Solo", "tuple", [])],
+        [variant("Solo")],
+    ]
+    return enum(did, shapes[k % len(shapes)])
 
 
 def _vals(E, v, which):
@@ -137,6 +150,15 @@ def msg_def(rng, did):
                 prefix=rng.choice([None, None, "p_"]), split=rng.randrange(2))
 
 
+def msg_special(did, k):
+    shapes = [
+        [variant("Gerbil", dis=True, dmsg="a very hidden gerbil"), variant("Cat", msg="cat")],
+        [variant("Rat", dis=True, msg="rat", dmsg="a very hidden rat", docs=[" hidden"]), variant("Dog", dmsg="only detail")],
+        [variant("Tab", docs=["\ttab first"]), variant("Nbsp", docs=["\u00a0nbsp first", "\u3000wide"]), variant("Sp", docs=["  two", " one", "none", ""])],
+    ]
+    return enum(did, shapes[k % len(shapes)])
+
+
 def msg_module(E):
     src = SG.HEADER + D.print_enum(E, ["EnumMessage"]) + "\n"
     did = E["id"]
@@ -186,6 +208,20 @@ def prop_def(rng, did):
         v["props"] = props
         vs.append(v)
     return enum(did, vs, split=rng.randrange(2))
+
+
+def prop_special(did, k):
+    def P(key, ty, val, grp, src=""):
+        return dict(key=cp(key), keysrc=key, ty=ty, val=(cp(val) if ty != "b" else val), src=src, grp=grp)
+    shapes = [
+        # the same key with several literal types on one variant, in one group and across groups
+        [variant("Big", props=[P("size", "s", "large", 0), P("size", "i", "3", 1, "3"), P("type", "i", "7", 1, "7"), P("type", "s", "seven", 1), P("type", "b", [0], 1, "false")]),
+         variant("Small", props=[P("size", "i", "1", 0, "1")])],
+        # a disabled variant with props is followed by enabled ones
+        [variant("First", props=[P("colour", "s", "red", 0)]), variant("Hidden", dis=True, props=[P("colour", "s", "grey", 0), P("closed", "b", [1], 0, "true")]),
+         variant("Second", "tuple", [field("u8")], props=[P("colour", "s", "blue", 0)]), variant("Last")],
+    ]
+    return enum(did, shapes[k % len(shapes)])
 
 
 def prop_module(E, rng):
